@@ -155,6 +155,27 @@ def gen_scenario(seed, profile="stream"):
         for _ in range(rng.choice((0, 1, 2, 4))):
             actions.append([round(rng.uniform(0, horizon - 1), 4), "commit"])
     actions.sort(key=lambda a: a[0])
+    # drawn from a stream of their own (the main stream decides everything above): wrappers whose records were all
+    # compacted away, left where the log has a free offset between two batches; a maximum buffer size that is not a
+    # value the growth steps land on
+    rng2 = random.Random((seed * 2246822519) ^ 0x5EEDBA7C)
+    if big is not None and rng2.random() < 0.5:
+        cfg["max_buffer_size"] = rng2.choice((buffer_size * 16 + 1, 100000, 150001, (1 << 20) + 1, 3000001))
+    if profile in ("stream", "retry", "commit") and rng2.random() < 0.3:
+        newlog = []
+        for i, b in enumerate(log):
+            newlog.append(b)
+            if i + 1 < len(log) and log[i + 1]["offsets"][0] - b["offsets"][-1] >= 2 and rng2.random() < 0.7:
+                newlog.append(dict(offsets=[b["offsets"][-1] + 1], sizes=[], magic=rng2.choice((0, 1)), codec=1,
+                                   hollow=True))
+                if rng2.random() < 0.6:
+                    # ... and the record right behind it does not fit the initial buffer (but does fit the maximum)
+                    sz = rng2.choice((buffer_size + 50, buffer_size * 3, buffer_size * 20))
+                    if cfg["max_buffer_size"] is not None:
+                        sz = min(sz, cfg["max_buffer_size"] - 400)
+                    if sz > log[i + 1]["sizes"][0]:
+                        log[i + 1]["sizes"][0] = sz
+        log = newlog
     return dict(seed=seed, profile=profile, brokers=brokers, leader=leader, log=log, cfg=cfg, start=start,
                 stored=stored, procs=procs, appends=appends, faults=faults, events=events, actions=actions,
                 horizon=horizon, latency=0.0 if profile == "retry" else rng.choice((0.0, 0.002, 0.02)),
@@ -171,6 +192,9 @@ def build_world(sc):
     cl.add_topic(TOPIC, {PART: sc["leader"]})
     lg = cl.log(TOPIC, PART)
     for b in sc["log"]:
+        if b.get("hollow"):
+            lg.add_hollow(b["offsets"][0], magic=b["magic"], codec=1)
+            continue
         recs = [(rec_key(o), rec_value(o, s), 1000 + o) for o, s in zip(b["offsets"], b["sizes"])]
         lg.add_batch(b["offsets"], recs, magic=b["magic"], codec=b["codec"])
     lg.log_start = sc["log"][0]["offsets"][0] if sc["log"] else 0
@@ -499,6 +523,7 @@ def run_scenario(sc, hooks=None, world=None, crash_after_write=None):
         except Exception as e:
             tr.capped = True
             tr.cap_reason = repr(e)
+            tr.spin = find_spin(tr)
         tr.end_state = snapshot(tr)
         if hooks.get("finish"):
             hooks["finish"](tr)
@@ -507,6 +532,40 @@ def run_scenario(sc, hooks=None, world=None, crash_after_write=None):
     tr.second_firings = traps.second_firings
     tr.logged = traps.errors_logged
     return tr
+
+
+def find_spin(tr):
+    """The event cap was hit: is the consumer re-sending one and the same fetch (same offset, same size), each answered
+    at once with the same record data, without virtual time passing?  Returns a description or None."""
+    fetches = [e for e in tr.cluster.history if e.get("api") == "Fetch" and "req" in e]
+    tail = fetches[-400:]
+    if len(tail) < 400:
+        return None
+    try:
+        keys = set()
+        for e in tail:
+            p = e["req"]["topics"][0]["partitions"][0]
+            keys.add((p["offset"], p["max_bytes"], e.get("replied"), e.get("reply_len")))
+    except Exception:
+        return None
+    if len(keys) != 1:
+        return None
+    (off, mb, replied, rlen) = list(keys)[0]
+    if replied != "sent" or not rlen or tail[-1]["t"] - tail[0]["t"] > 1.0:
+        return None
+    return dict(offset=off, max_bytes=mb, reply_len=rlen, repeats=len(tail), span=tail[-1]["t"] - tail[0]["t"])
+
+
+def report_spin(res, tr):
+    """True if the aborted run was a consumer spinning on one fetch (reported as a violation of progress)."""
+    sp = getattr(tr, "spin", None)
+    if not sp:
+        return False
+    res.violate("progress/spinning-on-one-fetch", "the consumer sent the same fetch (offset %d, max_bytes %d) at least "
+                "%d times in %.3f virtual seconds, each answered at once with the same %d bytes of record data: it "
+                "neither delivers, nor grows its buffer, nor fails" % (sp["offset"], sp["max_bytes"], sp["repeats"],
+                                                                       sp["span"], sp["reply_len"]))
+    return True
 
 
 def guard(fn, tr):
